@@ -662,7 +662,11 @@ def _extra_lenfield(tier, seed):
                 env.spawn(pr2._receive_frame_loop())
                 st2.feed(real)
                 env.run_ready()
-                assert rec2.msgs == [b"\x07" * cn], "real decode of real encode failed for n=%d" % cn
+                if rec2.msgs != [b"\x07" * cn]:
+                    # concrete replay of a length-field defect on the real encoder + real decoder
+                    violations.append(dict(detail="real _receive_frame does not decode what real _write_frame "
+                                                  "encoded for payload length %d (mask_bit %d)" % (cn, mb),
+                                           input=dict(n=cn, mask_bit=mb), finding_key="len_roundtrip_concrete"))
                 samples.append(dict(n=cn, mask_bit=mb, header=real[:1 + len(mine)].hex()))
     status = "VIOLATION" if violations else ("PROVED" if discharged == obligations else "BOUNDED")
     return dict(status=status, obligations=obligations, discharged=discharged, queries=queries,
